@@ -244,6 +244,11 @@ impl<T: ?Sized> Clone for Arc<T> {
 impl<T: ?Sized> Drop for Arc<T> {
     #[track_caller]
     fn drop(&mut self) {
+        // Execution has deadlocked, cleanup does not matter.
+        if !rt::execution(|execution| execution.threads.is_active()) {
+            return;
+        }
+
         if self.obj.ref_dec(location!()) {
             assert_eq!(
                 1,
